@@ -42,6 +42,7 @@ package livesql
 //@   ensures !owed
 
 // The dependency is registered before the query runs (no update between the two can be missed).
+//@ nonnil livesql.LiveDB.DB         // NewLiveDB always wraps a *sqlgen.DB
 //@ func LiveDB.query$1
 //@   ghost registered bool
 //@   entry ghost registered = false
